@@ -23,3 +23,271 @@ class SFun:
 
     def __repr__(self):
         return "%s(%s)" % (self.name, ", ".join(map(repr, self.args)))
+
+
+# ---------------------------------------------------------------------------------------------------------
+# byte-string terms over uninterpreted primitives (hashes, ciphers): enough algebra for key derivation code
+_cnt = [0]
+
+
+class BT:
+    """kinds: ('leaf', SBytes|bytes) ('fn', name, args) ('cat', parts) ('slice', src, lo, hi).  `n` = length (int) or None"""
+
+    def __init__(self, kind, *payload, n=None):
+        self.kind, self.payload, self.n = kind, payload, n
+
+    # -- constructors ---------------------------------------------------------------------------------
+    @staticmethod
+    def of(x):
+        from .values import SBytes
+        if isinstance(x, BT):
+            return x
+        if isinstance(x, (bytes, bytearray)):
+            return BT("leaf", bytes(x), n=len(x))
+        if isinstance(x, SBytes):
+            return BT("leaf", x, n=x.n if isinstance(x.n, int) else None)
+        raise TypeError("not a byte string: %r" % (x,))
+
+    @staticmethod
+    def fn(name, args, n=None):
+        return BT("fn", name, tuple(args), n=n)
+
+    @staticmethod
+    def cat(*parts):
+        flat = []
+        for p in parts:
+            p = BT.of(p)
+            if p.kind == "cat":
+                flat.extend(p.payload[0])
+            elif p.n == 0:
+                continue
+            else:
+                flat.append(p)
+        # merge adjacent concrete leaves
+        out = []
+        for p in flat:
+            if out and out[-1].kind == "leaf" and p.kind == "leaf" and isinstance(out[-1].payload[0], bytes) and isinstance(p.payload[0], bytes):
+                out[-1] = BT("leaf", out[-1].payload[0] + p.payload[0], n=out[-1].n + p.n)
+            else:
+                out.append(p)
+        if not out:
+            return BT("leaf", b"", n=0)
+        if len(out) == 1:
+            return out[0]
+        n = sum(p.n for p in out) if all(p.n is not None for p in out) else None
+        return BT("cat", tuple(out), n=n)
+
+    def slice(self, lo, hi):
+        from .values import SBytes
+        if self.n is not None:
+            lo = 0 if lo is None else (lo + self.n if lo < 0 else lo)
+            hi = self.n if hi is None else (hi + self.n if hi < 0 else hi)
+            lo, hi = max(0, min(lo, self.n)), max(0, min(hi, self.n))
+            if hi <= lo:
+                return BT("leaf", b"", n=0)
+            if lo == 0 and hi == self.n:
+                return self
+            if self.kind == "leaf":
+                v = self.payload[0]
+                if isinstance(v, bytes):
+                    return BT("leaf", v[lo:hi], n=hi - lo)
+                return BT("leaf", SBytes(hi - lo, (lambda k, v=v, lo=lo: v.at(lo + k)), v.elem_range, v.kind), n=hi - lo)
+            if self.kind == "cat":
+                parts, pos = [], 0
+                for p in self.payload[0]:
+                    if p.n is None:
+                        break
+                    a, b = max(lo, pos), min(hi, pos + p.n)
+                    if a < b:
+                        parts.append(p.slice(a - pos, b - pos))
+                    pos += p.n
+                else:
+                    return BT.cat(*parts)
+            if self.kind == "slice":
+                src, l0, _h0 = self.payload
+                return src.slice(l0 + lo, l0 + hi)
+            out = BT("slice", self, lo, hi, n=hi - lo)
+            return out
+        if lo in (None, 0) and hi is None:
+            return self
+        return BT("slice", self, lo, hi, n=None)
+
+    # -- engine hooks -----------------------------------------------------------------------------------
+    def __sym_binop__(self, I, op, other, node):
+        import ast
+        if isinstance(op, ast.Add):
+            return BT.cat(self, other)
+        from .values import SymError
+        raise SymError("operator on byte-string term")
+
+    def __sym_getitem__(self, I, idx, node):
+        from .values import SymError
+        if isinstance(idx, slice):
+            if L.any_z3(idx.start, idx.stop) or idx.step is not None:
+                raise SymError("symbolic slice of a byte-string term")
+            return self.slice(idx.start, idx.stop)
+        if self.n is not None and isinstance(idx, int):
+            i = idx + self.n if idx < 0 else idx
+            return BT.fn("byte", [self.slice(i, i + 1)], n=None).as_int()
+        raise SymError("index into a byte-string term")
+
+    def as_int(self):
+        return self
+
+    def view(self):
+        """the bytes of an opaque term as symbolic ints (one uninterpreted array per term, memoised), so that code
+        which iterates over e.g. a digest sees the same bytes every time"""
+        from .values import SBytes
+        import z3
+        if self.kind == "leaf":
+            v = self.payload[0]
+            return SBytes.from_concrete(v) if isinstance(v, bytes) else v
+        if self.n is None:
+            from .values import SymError
+            raise SymError("bytes of a term of unknown length")
+        if not hasattr(self, "_view"):
+            _cnt[0] += 1
+            arr = z3.Array("bytes_of_term!%d" % _cnt[0], z3.IntSort(), z3.IntSort())
+            self._view = SBytes(self.n, lambda k, arr=arr: z3.Select(arr, L.to_z3(k)), (0, 256), "bytes")
+        return self._view
+
+    def __sym_iter__(self, I):
+        from .values import SIter
+        v = self.view()
+        return SIter(v.n, lambda k: I.elem(v, k), "term-bytes")
+
+    def __sym_len__(self, I):
+        from .values import SymError
+        if self.n is None:
+            raise SymError("length of an opaque byte-string term")
+        return self.n
+
+    def __sym_truth__(self):
+        if self.n is None:
+            raise TypeError("truth of an opaque byte-string term")
+        return self.n != 0
+
+    def __sym_isinstance__(self, I, c):
+        return c in (bytes, object)
+
+    def __sym_eq__(self, I, other):
+        return bt_eq(self, other)
+
+    def __repr__(self):
+        if self.kind == "leaf":
+            v = self.payload[0]
+            return repr(v) if isinstance(v, bytes) else "<bytes n=%s>" % (self.n,)
+        if self.kind == "fn":
+            return "%s(%s)" % (self.payload[0], ", ".join(map(repr, self.payload[1])))
+        if self.kind == "cat":
+            return " + ".join(map(repr, self.payload[0]))
+        return "%r[%s:%s]" % self.payload
+
+
+def bt_eq(a, b):
+    """structural equality of byte-string terms (sound: equal structure => equal bytes; unequal structure is
+    reported as False only between concrete leaves)"""
+    from .summaries import sbytes_eq, as_sbytes
+    from .values import SBytes
+    try:
+        a, b = BT.of(a), BT.of(b)
+    except TypeError:
+        return False
+    if a.kind == "leaf" and b.kind == "leaf":
+        va, vb = a.payload[0], b.payload[0]
+        if isinstance(va, bytes) and isinstance(vb, bytes):
+            return va == vb
+        return sbytes_eq(as_sbytes(va), as_sbytes(vb))
+    if a.kind != b.kind:
+        # a concatenation of leaves against one leaf of the same length: compare bytewise
+        if a.n is not None and a.n == b.n and all(p.kind == "leaf" for p in (a.payload[0] if a.kind == "cat" else (a,))) \
+                and all(p.kind == "leaf" for p in (b.payload[0] if b.kind == "cat" else (b,))):
+            return L.And(*[L.eq(_byte_at(a, k), _byte_at(b, k)) for k in range(a.n)])
+        return Undecided(a, b)
+    if a.kind == "fn":
+        if a.payload[0] != b.payload[0] or len(a.payload[1]) != len(b.payload[1]):
+            return Undecided(a, b)
+        rs = []
+        for x, y in zip(a.payload[1], b.payload[1]):
+            if isinstance(x, (BT, bytes, SBytes)) or isinstance(y, (BT, bytes, SBytes)):
+                r = bt_eq(x, y)
+            else:
+                r = L.eq(x, y)
+            if isinstance(r, Undecided):
+                return r
+            rs.append(r)
+        return L.And(*rs)
+    if a.kind == "cat":
+        pa, pb = a.payload[0], b.payload[0]
+        if len(pa) == len(pb) and all(x.n == y.n or x.n is None or y.n is None for x, y in zip(pa, pb)):
+            rs = [bt_eq(x, y) for x, y in zip(pa, pb)]
+            for r in rs:
+                if isinstance(r, Undecided):
+                    return r
+            return L.And(*rs)
+        if a.n is not None and a.n == b.n and all(p.kind == "leaf" for p in pa + pb):
+            return L.And(*[L.eq(_byte_at(a, k), _byte_at(b, k)) for k in range(a.n)])
+        return Undecided(a, b)
+    if a.kind == "slice":
+        if a.payload[1:] == b.payload[1:]:
+            return bt_eq(a.payload[0], b.payload[0])
+    return Undecided(a, b)
+
+
+def _byte_at(t, k):
+    if t.kind == "leaf":
+        v = t.payload[0]
+        return v[k] if isinstance(v, bytes) else v.at(k)
+    pos = 0
+    for p in t.payload[0]:
+        if k < pos + p.n:
+            return _byte_at(p, k - pos)
+        pos += p.n
+    raise IndexError(k)
+
+
+class Undecided:
+    """the equality of two byte-string terms that the algebra cannot decide"""
+
+    def __init__(self, a, b):
+        self.a, self.b = a, b
+
+    def __bool__(self):
+        raise TypeError("undecided equality of %r and %r" % (self.a, self.b))
+
+
+def bt_eval(t):
+    """concrete value of a byte-string term whose leaves are concrete (real primitives): used by replay / cross-check"""
+    import hashlib
+    from .values import SBytes
+    if isinstance(t, (bytes, bytearray)):
+        return bytes(t)
+    if isinstance(t, SBytes):
+        if not isinstance(t.n, int):
+            raise ValueError("symbolic length")
+        vals = [t.at(k) for k in range(t.n)]
+        if not all(isinstance(v, int) for v in vals):
+            raise ValueError("symbolic bytes")
+        return bytes(vals)
+    if t.kind == "leaf":
+        return bt_eval(t.payload[0])
+    if t.kind == "cat":
+        return b"".join(bt_eval(p) for p in t.payload[0])
+    if t.kind == "slice":
+        return bt_eval(t.payload[0])[t.payload[1]:t.payload[2]]
+    name, args = t.payload
+    a = [bt_eval(x) if isinstance(x, (BT, bytes, SBytes)) else x for x in args]
+    if name in ("md5", "sha256", "sha384", "sha512"):
+        return getattr(hashlib, name)(a[0]).digest()
+    if name == "rc4":
+        from specs.pdfcrypt import rc4
+        return rc4(a[0], a[1])
+    if name == "aes-cbc-decrypt":
+        from cryptography.hazmat.primitives.ciphers import Cipher, algorithms, modes
+        return Cipher(algorithms.AES(a[0]), modes.CBC(a[1])).decryptor().update(a[2])
+    if name == "pkcs7-unpad":
+        p = a[0]
+        if p and 1 <= p[-1] <= 16 and p[-1] <= len(p) and p[-p[-1]:] == bytes([p[-1]]) * p[-1]:
+            return p[:-p[-1]]
+        return p
+    raise ValueError("no concrete meaning for %s" % name)
